@@ -10,6 +10,9 @@ theorems of `Props/C17.lean` are about those definitions at ℝ) AND corresponde
       out-of-bounds -> raises, random histories (initialize / optimiser steps with huge learning rates /
       raw assignments / constraint replacement) -> reads stay inside bounds; the scalar-parameter histories
       are also replayed through the Lean store model (`ParamStore`);
+  (4b) ONE Prior instance shared by 2–3 registrations (same module, two kernels of a sum/product, kernel + likelihood of
+      an ExactGP): `named_priors()` enumerates every registration with its own closure, summed log-density = sum over
+      registrations = scipy, setting closures / `sample_from_prior` per registration, exact MLL adds every term;
   (4) priors: closures, `sample_from_prior`, `log_prob` vs scipy.stats, vs the Lean `Float` formulas, vs the
       density documented in the class docstring, numerical normalisation where claimed.
 """
@@ -936,6 +939,8 @@ def sweep_priors(ctx):
 
     # --- closures / sample_from_prior on every module that takes *_prior arguments
     sweep_prior_closures(ctx, rng)
+    # --- one Prior instance shared by several registrations
+    sweep_shared_priors(ctx, rng)
     return lean_lines, lean_recs
 
 
@@ -1026,6 +1031,139 @@ def sweep_prior_closures(ctx, rng):
     ctx.notes["prior_closures_skipped"] = skipped
 
 
+
+def sweep_shared_priors(ctx, rng):
+    """ONE Prior instance registered 2–3 times (same module / two kernels of a sum / kernel + likelihood of a model):
+    `named_priors()` must enumerate every registration with its own closure; the summed log-density over the
+    enumeration equals the sum over registrations; setting closures and `sample_from_prior` work per registration;
+    the exact MLL (a consumer of named_priors) adds every registration's term."""
+    import scipy.stats as st
+    import torch
+    import gpytorch
+    from gpytorch import priors as P
+    K, L = gpytorch.kernels, gpytorch.likelihoods
+
+    class _GP(gpytorch.models.ExactGP):
+        def __init__(self, x, y, lik, covar):
+            super().__init__(x, y, lik)
+            self.mean_module = gpytorch.means.ZeroMean()
+            self.covar_module = covar
+
+        def forward(self, x):
+            return gpytorch.distributions.MultivariateNormal(self.mean_module(x), self.covar_module(x))
+
+    x = torch.linspace(0, 1, 6, dtype=torch.float64).unsqueeze(-1)
+    y = torch.sin(4 * x.squeeze(-1))
+
+    def scenarios(pr):
+        yield "same-module:PeriodicKernel(lengthscale,period_length)", lambda p: K.PeriodicKernel(lengthscale_prior=p, period_length_prior=p), None
+        yield "two-kernels-of-a-sum:RBF+Matern", lambda p: K.RBFKernel(lengthscale_prior=p) + K.MaternKernel(lengthscale_prior=p), None
+        yield "nested:ScaleKernel(outputscale)+base(lengthscale)", lambda p: K.ScaleKernel(K.RBFKernel(lengthscale_prior=p), outputscale_prior=p), None
+        yield "product:Cosine(period)*RQ(lengthscale)", lambda p: K.CosineKernel(period_length_prior=p) * K.RQKernel(lengthscale_prior=p), None
+        yield ("model:kernel+likelihood(3 registrations)",
+               lambda p: _GP(x, y, L.GaussianLikelihood(noise_prior=p), K.ScaleKernel(K.RBFKernel(lengthscale_prior=p), outputscale_prior=p)),
+               lambda: _GP(x, y, L.GaussianLikelihood(), K.ScaleKernel(K.RBFKernel())))
+        yield ("model:likelihood+two-summands",
+               lambda p: _GP(x, y, L.GaussianLikelihood(noise_prior=p), K.RBFKernel(lengthscale_prior=p) + K.LinearKernel(variance_prior=p)),
+               lambda: _GP(x, y, L.GaussianLikelihood(), K.RBFKernel() + K.LinearKernel()))
+
+    for rep in range(1 if ctx.quick else 4):
+        a, b = rng.uniform(2.0, 4.0), rng.uniform(1.0, 3.0)
+        for sname, mk, mk_plain in scenarios(None):
+            prior = P.GammaPrior(a, b)
+            with warnings.catch_warnings():
+                warnings.simplefilter("ignore")
+                m = mk(prior).double()
+            rp = {"kind": "shared-prior", "scenario": sname, "prior": ["GammaPrior", a, b]}
+            # registrations, found without named_priors: every distinct module's own _priors table
+            regs = []
+            for mname, mod in m.named_modules():
+                for pname, (pr, closure, scl) in getattr(mod, "_priors", {}).items():
+                    regs.append(((mname + "." if mname else "") + pname, mod, pr, closure, scl))
+            shared = [r for r in regs if r[2] is prior]
+            ctx.case(f"S:{sname}:enumeration", sample={"scenario": sname, "registrations": [r[0] for r in regs]})
+            if len(shared) < 2:
+                ctx.broke("correspondence", f"shared-prior:{sname}", f"scenario registers the shared prior only {len(shared)} time(s)")
+                continue
+            # give every registered parameter its own value (through the registration's setting closure)
+            vals = {}
+            for name, mod, pr, closure, scl in regs:
+                v = rng.uniform(0.4, 1.6)
+                ctx.case(f"S:{sname}:setting-closure:{name}")
+                try:
+                    scl(mod, torch.full_like(closure(mod).detach(), v))
+                    got = closure(mod).detach()
+                    if not torch.allclose(got, torch.full_like(got, v), rtol=1e-9):
+                        ctx.fail("shared-prior:setting-closure", f"{sname}: setting closure of `{name}` with {v!r} then reading gives "
+                                 f"{got.flatten()[:2].tolist()}", dict(rp, registration=name))
+                except Exception as e:
+                    ctx.fail("shared-prior:setting-closure", f"{sname}: setting closure of `{name}` raised {type(e).__name__}: "
+                             f"{str(e)[:100]}", dict(rp, registration=name))
+                vals[name] = v
+            enum = list(m.named_priors())
+            names_e, names_r = sorted(e[0] for e in enum), sorted(r[0] for r in regs)
+            if names_e != names_r:
+                ctx.fail("shared-prior:enumeration", f"{sname}: named_priors() yields {names_e} but the registrations are {names_r} "
+                         "(one Prior instance is shared by several of them)", rp)
+            byname = {r[0]: r for r in regs}
+            for name, mod, pr, closure, scl in enum:
+                r = byname.get(name)
+                if r is None:
+                    continue
+                ctx.case(f"S:{sname}:closure:{name}")
+                if mod is not r[1] or pr is not r[2] or closure is not r[3] or scl is not r[4]:
+                    ctx.fail("shared-prior:closure", f"{sname}: named_priors() entry `{name}` does not carry that registration's own "
+                             "module / prior / closure / setting closure", dict(rp, registration=name))
+                val = closure(mod).detach()
+                if not torch.allclose(val, torch.full_like(val, vals[name]), rtol=1e-9):
+                    ctx.fail("shared-prior:closure", f"{sname}: closure of `{name}` returns {val.flatten()[:2].tolist()}, the parameter was "
+                             f"set to {vals[name]!r}", dict(rp, registration=name))
+            # summed log density: enumeration vs registrations vs scipy
+            s_enum = sum(pr.log_prob(cl(mod)).sum().item() for _, mod, pr, cl, _ in enum)
+            s_regs = sum(pr.log_prob(cl(mod)).sum().item() for _, mod, pr, cl, _ in regs)
+            s_ref = sum(st.gamma.logpdf(vals[nm], a, scale=1 / b) * cl(mod).numel() for nm, mod, pr, cl, _ in regs)
+            ctx.case(f"S:{sname}:sum")
+            if not (abs(s_enum - s_regs) <= 1e-9 * (1 + abs(s_regs)) and abs(s_regs - s_ref) <= 1e-8 * (1 + abs(s_ref))):
+                ctx.fail("shared-prior:sum", f"{sname}: sum of prior.log_prob(closure(module)) over named_priors() = {s_enum!r}; over the "
+                         f"{len(regs)} registrations = {s_regs!r}; scipy reference {s_ref!r}", rp)
+            # consumer: the exact MLL adds every registration's term
+            if mk_plain is not None:
+                with warnings.catch_warnings():
+                    warnings.simplefilter("ignore")
+                    plain = mk_plain().double()
+                    sd = {k_: v_ for k_, v_ in m.state_dict().items() if k_ in plain.state_dict()}
+                    plain.load_state_dict(sd, strict=False)
+                    vals_mll = []
+                    for mdl in (m, plain):
+                        mdl.train()
+                        mll = gpytorch.mlls.ExactMarginalLogLikelihood(mdl.likelihood, mdl)
+                        with torch.no_grad():
+                            vals_mll.append(mll(mdl(x), y).item())
+                ctx.case(f"S:{sname}:mll")
+                want = s_ref / y.numel()
+                if not abs((vals_mll[0] - vals_mll[1]) - want) <= 1e-8 * (1 + abs(want)):
+                    ctx.fail("shared-prior:mll", f"{sname}: ExactMarginalLogLikelihood with priors - without = "
+                             f"{vals_mll[0] - vals_mll[1]!r}, the {len(regs)} registrations contribute {want!r} (sum of log densities / n)", rp)
+            # sample_from_prior per registration
+            for name, mod, pr, closure, scl in regs:
+                short = name.split(".")[-1]
+                seed = rng.torch_seed()
+                torch.manual_seed(seed)
+                expect = pr.sample()
+                torch.manual_seed(seed)
+                ctx.case(f"S:{sname}:sample:{name}")
+                try:
+                    mod.sample_from_prior(short)
+                    got = closure(mod).detach()
+                    if not torch.allclose(got, expect.expand_as(got).to(got), rtol=1e-9):
+                        ctx.fail("shared-prior:sample", f"{sname}: sample_from_prior(`{name}`) drew {expect.flatten()[0].item()!r}, the "
+                                 f"parameter reads {got.flatten()[:2].tolist()}", dict(rp, registration=name, seed=seed))
+                except Exception as e:
+                    ctx.fail("shared-prior:sample", f"{sname}: sample_from_prior(`{name}`) raised {type(e).__name__}: {str(e)[:100]}",
+                             dict(rp, registration=name, seed=seed))
+    ctx.count("shared_prior_scenarios", 6 * (1 if ctx.quick else 4))
+
+
 def compare_lean_priors(ctx, recs, replies):
     bad = 0
     for (name, want, rp), rep in zip(recs, replies):
@@ -1104,6 +1242,14 @@ def replay(ctx, payload):
         if bnd <= tol:
             ok = ok and abs(con.inverse_transform(y)[0].item() - case["x"]) <= tol
         return ok
+    if k == "shared-prior":
+        sub = Ctx2()
+        torch.set_default_dtype(torch.float64)
+        try:
+            sweep_shared_priors(sub, sub.rng("priors"))
+        finally:
+            torch.set_default_dtype(torch.float32)
+        return not any(f["key"] == payload["key"] for f in sub.failures)
     # everything else: re-run the sweeps and look for the same key
     sub = Ctx2()
     correspondence(sub, want_driver=True)
